@@ -101,6 +101,7 @@ class LockOp:
         self.notify_cond_set = None
         self.raise_node = None
         self.dynamic = False
+        self.conditional = False  # release written as `if K in L: L.remove(K)`
         self.anomalies = []  # (code, message, node)
 
     @property
@@ -213,6 +214,22 @@ def match_with(with_node: ast.With, func, sync: SyncTable, resolve=None):
                 op.kind = "tryclaim"
                 op.key, op.list_set = mem[0], mem[1]
                 op.raise_node = body[-1]
+                continue
+            rm = [method_call(b, ("remove",)) for b in body]
+            if mem and not mem[2] and not st.orelse and rm and rm[0] and all(
+                    method_call(b, ("remove", "notify", "notify_all")) for b in body):
+                # `if K in L: L.remove(K)` - a release that tolerates a claim which is not held
+                x, _m, args = rm[0]
+                seen_remove = True
+                op.kind = "release"
+                op.conditional = True
+                op.list_set, op.key = x, (args[0] if args else None)
+                if x != mem[1] or (args and ast.dump(args[0]) != ast.dump(mem[0])):
+                    op.anomalies.append(("foreign", "conditional release tests another key / list than it removes", st))
+                for b in body[1:]:
+                    mc2 = method_call(b, ("notify", "notify_all"))
+                    if mc2:
+                        op.notify_cond_set = mc2[0]
                 continue
             if mem and any(method_call(b, ("wait",)) for b in body):
                 op.wait_key, op.wait_list_set = mem[0], mem[1]
